@@ -176,7 +176,10 @@ func (p *Provider) Execute(ctx context.Context, name string, args []interface{})
 }
 
 func (p *Provider) process(c call) (rv returnValue) {
-	index, name, args := c.Value()
+	// the tuple comes from the peer: taking it apart may panic as well
+	index := -1
+	var name string
+	var args []interface{}
 	defer func() {
 		if e := recover(); e != nil {
 			err := core.NewPanicError(e)
@@ -187,6 +190,7 @@ func (p *Provider) process(c call) (rv returnValue) {
 			}
 		}
 	}()
+	index, name, args = c.Value()
 	method := p.Get(name)
 	if method == nil {
 		return newReturnValue(index, nil, "Can't find this method "+name+"().")
@@ -230,6 +234,11 @@ func (p *Provider) process(c call) (rv returnValue) {
 }
 
 func (p *Provider) dispatch(calls []call) {
+	defer func() {
+		if e := recover(); e != nil {
+			p.onError(core.NewPanicError(e))
+		}
+	}()
 	n := len(calls)
 	results := make([]returnValue, n)
 	var wg sync.WaitGroup
